@@ -109,6 +109,8 @@ def difficulty(kind, w, l, total):
     """the two shipped difficulty functions, exactly: ballot polling 1/(p q^2), comparison 1/(assorter margin)"""
     if kind == "bp":
         return F((w + l) * total, (w - l) ** 2)
+    if kind == "neg":  # a caller-supplied function that decreases as the margin grows and takes negative values
+        return F(-(w - l))
     return F(total, w - l)
 
 
